@@ -1,6 +1,7 @@
 /-
-  C23 — property theorems (the algorithm-level theorems are added as the models are finished;
-  see DESIGN.md section 6).
+  C23 — exactness of the history checker used by tie H.
+  The algorithm-level theorems are in Props/C23Kernel.lean, Props/C23KernelR.lean (flat-combining kernel machine,
+  every schedule) and Props/C23Batch.lean (batch functions).
 -/
 import CdsVerif.Base.Spec
 namespace CdsVerif.Props.C23
